@@ -107,6 +107,9 @@ pub trait ExIteratorEnumerate {
     type Item;
     fn enumerate(self) -> (r: core::iter::Enumerate<Self>) where Self: Sized
         ensures enumerate_rel(self, r);
+    /// `by_ref` is the identity on the mutable reference (ASSUMED, like every clause of this trait)
+    fn by_ref(&mut self) -> (r: &mut Self) where Self: Sized
+        ensures *r == *old(self), *final(r) == *final(self);
 }
 
 #[verifier::prophetic]
